@@ -100,6 +100,10 @@ def scan_trusted(text):
     for m in re.finditer(r"\buninterp\s+spec\s+fn\s+(\w+)", text):
         out.append(f"uninterp spec fn {m.group(1)}")
     for m in re.finditer(r"\b(admit|assume)\s*\(", text):
+        if "/* R16:" in text[m.start() : m.start() + 60]:
+            # splice rule R16 (case split of a `match`): the arm is cut in this copy and verified in another copy; splice checks the cover
+            out.append("R16 case_split: assume(false) at the start of the match arms that are verified in another copy of the function (cover checked by splice)")
+            continue
         out.append(f"{m.group(1)}() at byte {m.start()}")
     for m in re.finditer(r"#\[verifier::external_type_specification\][^;]*?struct\s+(\w+)\s*(?:<[^>]*>)?\s*\(([^)]*)\)", text):
         out.append(f"external_type_specification {m.group(2).strip()}")
